@@ -894,13 +894,63 @@ pub fn tt_strategy(_t: Tier) -> BoxedStrategy<TtCase> {
         .boxed()
 }
 
+/// Rank of every unfolding (rows = first k modes, columns = the rest) of `x`, in f64.
+fn unfolding_ranks(x: &[f32], shape: &[usize]) -> Vec<usize> {
+    let n: usize = shape.iter().product();
+    let mut out = Vec::new();
+    let mut rows = 1usize;
+    for k in 0..shape.len().saturating_sub(1) {
+        rows *= shape[k];
+        let cols = n / rows;
+        let mut m: Vec<f64> = x.iter().map(|v| f64::from(*v)).collect();
+        let scale = m.iter().fold(0.0f64, |a, v| a.max(v.abs()));
+        let eps = scale * 1e-5;
+        let mut rank = 0usize;
+        for c in 0..cols {
+            if rank == rows {
+                break;
+            }
+            let (mut best, mut bi) = (0.0f64, rank);
+            for r in rank..rows {
+                if m[r * cols + c].abs() > best {
+                    best = m[r * cols + c].abs();
+                    bi = r;
+                }
+            }
+            if best <= eps {
+                continue;
+            }
+            for j in 0..cols {
+                m.swap(rank * cols + j, bi * cols + j);
+            }
+            for r in rank + 1..rows {
+                let f = m[r * cols + c] / m[rank * cols + c];
+                if f != 0.0 {
+                    for j in c..cols {
+                        m[r * cols + j] -= f * m[rank * cols + j];
+                    }
+                }
+            }
+            rank += 1;
+        }
+        out.push(rank);
+    }
+    out
+}
+
 pub fn tt_check(c: &TtCase, ctx: &mut CaseCtx) -> Result<(), Fail> {
     use tensor_compress::{tt_decompose, tt_reconstruct, TTConfig};
     let shape: Vec<usize> = c.shape.iter().map(|s| usize::from(*s)).collect();
     let n: usize = shape.iter().product();
     let tol = [1e-2f32, 1e-3, 1e-4][usize::from(c.tol) % 3];
     let rank = usize::from(c.rank);
-    let seed = |i: usize| -> f64 { f64::from(c.seed[i % c.seed.len()]) / 4.0 };
+    // half of the cases sit on a grid of quarters (exact cancellations happen), half are jittered off it
+    let jitter = c.seed.len() % 2 == 0;
+    let seed = |i: usize| -> f64 {
+        let base = f64::from(c.seed[i % c.seed.len()]) / 4.0;
+        if jitter && base != 0.0 { base + 0.0137 * ((i * 37) % 11) as f64 } else { base }
+    };
+    ctx.label(if jitter { "tt:off-grid" } else { "tt:on-grid" });
     let (x, exact_rank, what): (Vec<f32>, Option<usize>, &str) = match c.kind {
         0 => {
             // exact TT-rank <= rank: product of generated cores
@@ -984,14 +1034,23 @@ pub fn tt_check(c: &TtCase, ctx: &mut CaseCtx) -> Result<(), Fail> {
     }
     if exact_rank.is_some() && norm > 0.0 {
         let rel = err / norm;
+        // documented bounds: truncation tolerance (relative), and "<1% error" for the TT mode
+        // (TensorMode docs). The 20-step power iteration does not converge to tolerances of 1e-4
+        // for close singular values (observed 1e-3..4e-3); that is counted, the violation
+        // threshold is the larger of 10 x tolerance and the documented 1 %.
         if rel > 10.0 * f64::from(tol) {
-            // categorical shape of the failure: everything lost (rank 0, all-zero output) is one
-            // defect whatever the input family; merely inaccurate output is reported per family
-            let zero = y.iter().all(|v| *v == 0.0);
-            let sig = if zero { "tt:all-zero-output".to_string() } else { format!("tt:{what}:error-above-10x-tolerance") };
+            ctx.label("tt:error-above-10x-tolerance");
+        }
+        if rel > (10.0 * f64::from(tol)).max(0.01) {
+            // categorical shape of the failure: the decomposition stopped at a TT-rank below the
+            // exact rank of the input (down to rank 0 = all-zero output) vs. full rank but inaccurate
+            // (true TT-ranks = ranks of the unfoldings of the input, by own Gaussian elimination)
+            let truth = unfolding_ranks(&x, &shape);
+            let under = tt.ranks.len() == truth.len() + 2 && truth.iter().enumerate().any(|(k, r)| tt.ranks[k + 1] < *r);
+            let sig = if under { "tt:rank-underestimated".to_string() } else { format!("tt:{what}:error-above-bound") };
             ctx.fail(
                 sig,
-                format!("shape {shape:?} rank {exact_rank:?} max_rank {max_rank} tol {tol}: relative error {rel:.4e}"),
+                format!("shape {shape:?} rank {exact_rank:?} max_rank {max_rank} tol {tol}: relative error {rel:.4e}, ranks found {:?}, ranks of the unfoldings {truth:?}", tt.ranks),
             )?;
         }
         if exact_rank.unwrap_or(1) >= 2 && n >= 8 {
